@@ -191,7 +191,7 @@ def check_reset_shapes(repo):
         expect(ib, r"fn\s+reset\s*\(\s*&mut\s+self\s*\)\s*\{", "<%s as Reset>::reset" % ty, want, hooks=False)
         expect(ib, r"fn\s+verif_is_clean\s*\(\s*&self\s*\)\s*->\s*bool\s*\{", "<%s as Reset>::verif_is_clean" % ty, "self.is_empty()", hooks=False)
     try:
-        ib = block_after(b_raw, r"impl\s*<[^>]*>\s*Reset\s+for\s+BondContainer\s*<\s*T\s*>\s*\{", "impl Reset for BondContainer<T>")
+        ib = block_after(b_raw, r"impl[^\n{;]*\bReset\s+for\s+BondContainer\s*<\s*T\s*>\s*\{", "impl Reset for BondContainer<T>")
         expect(ib, r"fn\s+reset\s*\(\s*&mut\s+self\s*\)\s*\{", "<BondContainer<T> as Reset>::reset", "self.clear();", hooks=False)
         expect(ib, r"fn\s+verif_is_clean\s*\(\s*&self\s*\)\s*->\s*bool\s*\{", "<BondContainer<T> as Reset>::verif_is_clean",
                "self.keys.is_empty()&&self.total_weight==0.&&self.map.iter().all(|m|m.is_none())", hooks=False)
